@@ -527,7 +527,12 @@ B("PB02 seeded C05-5b (initial loads misaligned)", ("PATCH", "/verif/seeded/C05-
 B("PB03 seeded C06-5a (initial loads misaligned after merging ballots)", ("PATCH", "/verif/seeded/C06-5a/patch.diff", None))
 B("PB04 seeded C05-6a (budget pre-filter dropped)", ("PATCH", "/verif/seeded/C05-6a/patch.diff", None))
 B("PB05 seeded C05-6b (module-level score cache)", ("PATCH", "/verif/seeded/C05-6b/patch.diff", None))
-B("PB06 seeded C01-6a (stop test on the first tied project only)", ("PATCH", "/verif/seeded/C01-6a/patch.diff", None))
+B("PB06 seeded C01-6a, re-based (stop test on the first tied project only)", (PHRAG, P_STOP, """            arg_min_new_maxload.sort()
+            to_check = arg_min_new_maxload[:1] if resolute else arg_min_new_maxload
+            if any(cost + project.cost > inst.budget_limit for project in to_check):
+"""))
+B("PB06b phragmen: stop test on the first tied project in iteration order", (PHRAG, P_STOP, """            if cost + arg_min_new_maxload[0].cost > inst.budget_limit:
+"""))
 B("PB07 seeded C08-5b (deepcopy hoisted out of the tie loop)", ("PATCH", "/verif/seeded/C08-5b/patch.diff", None))
 B("PB08 seeded C08-4b (resolute early exit at exact budget)", ("PATCH", "/verif/seeded/C08-4b/patch.diff", None))
 B("PB09 seeded C13-4a (initial allocation aliased)", ("PATCH", "/verif/seeded/C13-4a/patch.diff", None))
@@ -536,7 +541,7 @@ B("PB11 phragmen: <= for < in the running minimum", (PHRAG, "new_maxload < min_n
 B("PB12 phragmen: cost of the project left out of the new maximum load", (PHRAG, "                        + project.cost,\n", "                        ,\n"))
 B("PB13 phragmen: loads set to the cost share instead of the new maximum load", (PHRAG, P_UPD, P_UPD.replace("voter.load = min_new_maxload", "voter.load = voter.load + frac(selected_project.cost, approval_scores[selected_project])")))
 B("PB14 phragmen: all(...) in the stop test", (PHRAG, P_STOP, P_STOP.replace("if any(", "if all(")))
-B("PB15 phragmen: tied projects not name-sorted before the tie-breaking", (PHRAG, "inst, prof, sorted(arg_min_new_maxload)", "inst, prof, arg_min_new_maxload"))
+B("PB15 phragmen: tied projects not name-sorted before the tie-breaking", (PHRAG, "tied_projects = sorted(arg_min_new_maxload)", "tied_projects = list(arg_min_new_maxload)"))
 B("PB16 phragmen: >= in the stop test", (PHRAG, "cost + project.cost > inst.budget_limit", "cost + project.cost >= inst.budget_limit"))
 
 # ---------------- edits that leave the fragment / the aliasing discipline: must fail closed ----------------
